@@ -33,10 +33,10 @@ func (prop) Cases(tier string) int {
 func (prop) Info() fw.Info {
 	return fw.Info{
 		Level: "exploration",
-		Rule: "case i mod 4: (0) grammar-directed odd program: a type expression (every native type x size/array spec incl. 20-digit numbers x wrappers, local/cross-app/namespaced/column references) dropped into each of 14 positions (field, table field, parameter, alias, union, REST path/query/parameter, list field, in-place tuple, view, event, re-opened type changing kind, docstrings nested in REST blocks, annotations around every member kind), enumerated by index; (1) 1-4 text mutations (byte/odd-character insertion, span deletion, line duplicate/remove/swap/splice from another file, indentation perturbation, digit inflation, size-spec insertion, keyword substitution, decorations, truncation, %-escape corruption, block re-indent) of a repository .sysl file; (2) the same mutations of a generated specification or of an odd program; (3) an import closure of 2-4 files (split generated specification) with one file mutated. Each input is compiled in-process by the real parser inside a guarded, journaled worker (input saved first). Violation: Go panic, fatal error, process exit from library code, bounded-progress failure, or a listener stack left non-empty after a file was walked (verif hook). Every 16th case is replayed through `sysl pb`: exit status must be 0 with output or 1/2 with a message, never a panic trace. Non-trivial: the input reaches the tree walk (at least one grammar rule entered) or is rejected with a named file; distinct by input hash.",
+		Rule: "case i mod 4: (0) grammar-directed odd program: a type expression (every native type x size/array spec incl. 20-digit numbers x wrappers, local/cross-app/namespaced/column references) dropped into each of 20 positions (field, table field, parameter, alias, union, REST path/query/parameter, list field, in-place tuple, view, event, re-opened type changing kind, docstrings nested in REST blocks, annotations around every member kind, REST-style calls to simple/missing endpoints, nested untyped transforms, mixins of dotted local references, collector and pub/sub forms, facades and dotted type names — the last six are judged by the linter and post-processing, after the tree walk), enumerated by index; (1) 1-4 text mutations (byte/odd-character insertion, span deletion, line duplicate/remove/swap/splice from another file, indentation perturbation, digit inflation, size-spec insertion, keyword substitution, decorations, truncation, %-escape corruption, block re-indent) of a repository .sysl file; (2) the same mutations of a generated specification or of an odd program; (3) an import closure of 2-4 files (split generated specification) with one file mutated. Each input is compiled in-process by the real parser inside a guarded, journaled worker (input saved first). Violation: Go panic, fatal error, process exit from library code, bounded-progress failure, or a listener stack left non-empty after a file was walked (verif hook). Every 16th case is replayed through `sysl pb`: exit status must be 0 with output or 1/2 with a message, never a panic trace. Non-trivial: the input reaches the tree walk (at least one grammar rule entered) or is rejected with a named file; distinct by input hash.",
 		Assumptions: []string{"termination is checked as bounded progress (300 s per case, re-run alone before a verdict)", "inputs <= 64 KiB"},
 		CountFloors: map[string]int{"compiled_ok": 300, "rejected": 300, "walks_observed": 1000},
-		SetFloors:   map[string]int{"rules_entered": 120, "mutators": 12, "odd_positions": 12},
+		SetFloors:   map[string]int{"rules_entered": 120, "mutators": 12, "odd_positions": 18},
 	}
 }
 
